@@ -98,6 +98,10 @@ def collect_patches(names):
                 out.append(("seeded/" + name, os.path.join(sdir, name, "patch.diff"), meta.get("expected_checks", [meta["property"]]), False, meta.get("check_env")))
     if names:
         out = [o for o in out if o[0] in names or o[0].split("/")[-1] in names]
+    shard = os.environ.get("VERIF_MUT_SHARD")
+    if shard:
+        i, n = (int(x) for x in shard.split("/"))
+        out = [o for k, o in enumerate(out) if k % n == i]
     return out
 
 
@@ -124,6 +128,10 @@ def mutants(args, seed, jobs):
             for p in props:
                 code, viol, info, out = run_check(p, scale, extra_env)
                 if code == 2:
+                    row.setdefault("harness_errors", []).append(p)
+                    print(out[-800:])
+                elif code == 1 and not viol:
+                    # exit 1 without a VIOLATION line is a crash of the driver, not a verdict
                     row.setdefault("harness_errors", []).append(p)
                     print(out[-800:])
                 elif code == 1:
